@@ -46,11 +46,27 @@ var rewriteShapes = []string{
 	`\d{2}a|\d{1,2}b`, `[xy]{3}a|[xy]{1,3}b`, `[ab]{2}c|[ab]{0,2}d`, `[^a]{2}b|[^a]{1,2}c`, `(?>[ab]{2}c|[ab]{1,2}d)`, `.{2}a|.{1,2}b`,
 	`abc|abd`, `abc|abd|x`, `ab|ac|ad`, `(?>abc|abd)`, `(?>ab|abc|ad)e?`, `(?>hi|there|hello)`, `(?>a|b|ab)c`, `(?>ab||c)d`, `(?>|a)b`, `(?>a||b)`, `this|that|there`, `(?:this|that)s`, `[ab]c|[ab]d`, `a.b|a.c`,
 	`(?>x(?:hi|there|hello))`, `(?>abc|abd|aec|abf)`, `(?i:abc|abd)`, `(abc|abd)\1`, `(?<=abc|abd)e`, `(?<=cba|dba)e`,
+	// balancing groups: the close fails while the popped group is empty and the matcher backtracks into the
+	// contents, so nothing inside is "at the end" (Properties/C05.v C05_R2_balancing_capture_refuted; fixed in 7e695b7)
+	// shapes for the mutation tests: loop-led alternation branches (prefix extraction must skip variable-count loops),
+	// bounded loops in front (no bump-along marker), atomic alternations where a later branch is a prefix of an earlier one's sibling
+	`a*a|a*b`, `a+b|a+c`, `[ab]*a|[ab]*c`, `a{2}b|a{2}c`, `a*?b|a*?c`, `(?>a*a|a*b)`, `a{1,2}b`, `a{1,3}b`, `[ab]{1,2}c`, `a{0,2}?b`,
+	`(?>x|ab|a)b?`, `(?>xy|ab|a)b?`, `(?>hi|hello|he|there)l?`, `(?>b|ab|a|abc)c?`,
+	// \B after a loop of non-word characters at the end of the pattern: holds between two loop characters, may fail
+	// after the last one (known finding c05-nonboundary-end until fixed); sound when something disjoint follows
+	`\W+\B`, `-+\B`, `\D+\B`, `\W+\B\d*`, `[-.]+\B`, `\W+\B\w`, `\w+\B`, `\w+\b\s*`, `(?>\W+)\B`, `\s+\B`,
+	// regression shapes of fixed defects: right-to-left loops inside lookbehinds reached by ending-backtracking removal
+	// (cad7f1b), an overlapping nullable set loop stepped over by canBeMadeAtomic (af08c9d), atomic child loops under a
+	// quantifier (571b434; same tree with every gate, kept for the reference-semantics half of the leg)
+	`(?<=(?:a*ba){2})`, `(?<=(?:a*$){2})`, `(?<=(?:a*\z){2})c?`, `(?<=(?:[ab]*ba){2,3})`, `(?<!(?:a*ba){2})a`, `(?<=(?:a+b){2})`,
+	`[ab]+(?=[ab]*c)[ab]c`, `\w+(?=\w*\.)[ab]\.`, `[ab]+(?=[ab]*?c)[ab]c`, `[ab]*(?:[ab]+\w{0,2}?(?=[ab]*?\S*-)|\z[a-]){2}`, `[ab]*[cd]*e`, `[ab]+[bc]?c`,
+	`(?>a+)?ab`, `(?>a?){2,}ab`, `(?>a*)?aab`, `(?>a{1,2}){2}`, `(?>a*)+b`,
+	`(?<a-b>x|(?<b>x))`, `(?=(?<a-b>x|(?<b>x)))x`, `a(?<a-b>(?<b>x)*?|x)`, `(?>(?<a-b>x*?|(?<b>x)))`, `(?<b>a)?(?<a-b>x|(?<b>x))c?`, `(?<a-b>(?:x|(?<b>x))+?)`, `(?<b>a)(?<-b>x*)x`,
 }
 
 // legGates: result(normal) == result(rewrite family switched off), on the real engine and on the reference semantics.
 func legGates(c *Ctx) {
-	c.Rule("patterns biased to the rewrite shapes (loop followed by X, alternations with shared prefixes, nested atomic groups, lookarounds incl. lookbehind, conditionals) + random ASTs + harvested patterns, x options; compiled normally and with each rewrite family switched off (hook gates 1,2,4,8,16 and all 31); compared on every string up to length 4 over the pattern alphabet (sampled when large) x every start offset plus random longer strings: real search and accelerator-free scan must agree between the two compilations; model: Spec.find on the exported tree with rewrites off must equal the engine's result (the tree with rewrites on is covered by leg c01-sem); non-trivial = the two exported trees differ (a rewrite fired) and a match exists (distinct by pattern,options,gate,input,start)")
+	c.Rule("patterns biased to the rewrite shapes (loop followed by X, alternations with shared prefixes, nested atomic groups, lookarounds incl. lookbehind, conditionals) + random ASTs + harvested patterns, x options; compiled normally and with each rewrite family switched off (hook gates 1,2,4,8,16 and all 31); compared on every string up to length 4 over the pattern alphabet (sampled when large) x every start offset plus random longer strings plus, when the two trees differ, every string of length 4-5 (6) over the pattern's first two letters: real search and accelerator-free scan must agree between the two compilations; model: Spec.find on the exported tree with rewrites off must equal the engine's result (the tree with rewrites on is covered by leg c01-sem); non-trivial = the two exported trees differ (a rewrite fired) and a match exists (distinct by pattern,options,gate,input,start)")
 	var pats []patCase
 	for _, s := range rewriteShapes {
 		for _, o := range []Opts{{}, {I: true}, {S: true}, {M: true}, {RTL: true}} {
@@ -70,6 +86,7 @@ func legGates(c *Ctx) {
 			continue
 		}
 		onWire := ExportTree(treeOn, on.VerifCode())
+		nbGuard := nonboundaryAtEnd(treeOn.Root)
 		gates := []uint32{31, 1, 2, 4, 8, 16}
 		for gi, g := range gates {
 			if gi > 0 && !c.Rng.Chance(35) {
@@ -112,12 +129,38 @@ func legGates(c *Ctx) {
 			for k := 0; k < 10; k++ {
 				inputs = append(inputs, randString(c.Rng, al, 10))
 			}
+			// every string up to length 5 (6) over the first two letters of the pattern: long enough to run a
+			// bounded loop to its maximum and still have loop characters left (bump-along), always included
+			two := []rune{}
+			for _, ch := range p.pat {
+				if ch >= 'a' && ch <= 'z' && len(two) < 2 && !containsRune(two, ch) {
+					two = append(two, ch)
+				}
+			}
+			for _, ch := range []rune{'a', 'b'} {
+				if len(two) < 2 && !containsRune(two, ch) {
+					two = append(two, ch)
+				}
+			}
+			nDirected := 0
+			if differs {
+				allStrings(two, c.N(5, 6), func(s []rune) {
+					if len(s) > maxLen {
+						inputs = append(inputs, append([]rune{}, s...))
+						nDirected++
+					}
+				})
+			}
 			budget := c.N(90, 500)
 			for idx, in := range inputs {
-				if idx > 20 && len(inputs) > budget && c.Rng.Intn(len(inputs)) >= budget {
+				if idx > 20 && idx < len(inputs)-nDirected && len(inputs) > budget && c.Rng.Intn(len(inputs)) >= budget {
 					continue
 				}
+				directed := idx >= len(inputs)-nDirected
 				for start := 0; start <= len(in); start++ {
+					if directed && start > 0 {
+						break // the directed strings are about what the scan does from the left edge
+					}
 					if start > 0 && start < len(in) && c.Rng.Chance(60) {
 						continue
 					}
@@ -131,6 +174,10 @@ func legGates(c *Ctx) {
 						continue
 					}
 					cs := &Case{Desc: desc, Nontrivial: differs && a2 != nil, Key: desc, Class: fmt.Sprintf("gate%d", g)}
+					if g&1 != 0 && nbGuard {
+						cs.Guard = "c05-nonboundary-end"
+						c.Hist("guarded-c05-nonboundary-end")
+					}
 					switch {
 					case !matchEq(a1, a2):
 						cs.Direct = fmt.Sprintf("search with rewrites on returned %s, with the rewrite family off %s", matchStr(a1), matchStr(a2))
@@ -138,7 +185,7 @@ func legGates(c *Ctx) {
 						cs.Direct = fmt.Sprintf("accelerator-free scan with rewrites on returned %s, with the rewrite family off %s", matchStr(n1), matchStr(n2))
 					}
 					// reference semantics on the un-rewritten tree
-					if differs && c.Rng.Chance(50) {
+					if differs && c.Rng.Chance(50) && (!directed || c.Rng.Chance(25)) {
 						cs.ModelLeg = 103
 						cs.ModelIn = append(append(encEnv(in, start, p.o, offWire.Sets, offWire.Slots), offWire.Words...), b2i(p.o.RTL), int64(start), -1, semFuel)
 						cs.ImplOut = encMatch(a1, nil)
@@ -152,4 +199,95 @@ func legGates(c *Ctx) {
 		c.Gate(fmt.Sprintf("rewrite family %d changed some tree", g), fired[g] > 0)
 		c.res.Histogram[fmt.Sprintf("family%d-fired", g)] = fired[g]
 	}
+}
+
+// Guard of the known finding c05-nonboundary-end (Properties/C05.v C05_R4_nonboundary_at_end_refuted): the tree
+// compiled with the rewrites on contains an atomic single-character loop with min > 0 whose next sibling (past the
+// bump-along marker) is \B, and from that \B to the end of the pattern only nodes that can match the empty string
+// follow, walking up exactly as canBeMadeAtomic does (through Concatenate tails, Capture, Atomic, Alternate).
+func nonboundaryAtEnd(n *syntax.RegexNode) bool {
+	if n == nil {
+		return false
+	}
+	if n.T == syntax.NtConcatenate {
+		for i, ch := range n.Children {
+			if (ch.T == syntax.NtOneloopatomic || ch.T == syntax.NtSetloopatomic) && ch.M > 0 {
+				j := i + 1
+				if j < len(n.Children) && n.Children[j].T == syntax.NtUpdateBumpalong {
+					j++
+				}
+				if j < len(n.Children) && (n.Children[j].T == syntax.NtNonboundary || n.Children[j].T == syntax.NtNonECMABoundary) &&
+					onlyNullableToEnd(n, j+1) {
+					return true
+				}
+			}
+		}
+	}
+	for _, ch := range n.Children {
+		if nonboundaryAtEnd(ch) {
+			return true
+		}
+	}
+	return false
+}
+
+// every sibling of concat from index i on can match the empty string, and so on up to the root
+func onlyNullableToEnd(concat *syntax.RegexNode, i int) bool {
+	for ; i < len(concat.Children); i++ {
+		if !c05Nullable(concat.Children[i]) {
+			return false
+		}
+	}
+	node := concat
+	for node.Parent != nil {
+		p := node.Parent
+		switch p.T {
+		case syntax.NtAtomic, syntax.NtAlternate, syntax.NtCapture:
+			node = p
+		case syntax.NtConcatenate:
+			idx := -1
+			for k, ch := range p.Children {
+				if ch == node {
+					idx = k
+				}
+			}
+			for k := idx + 1; k < len(p.Children); k++ {
+				if !c05Nullable(p.Children[k]) {
+					return false
+				}
+			}
+			node = p
+		default:
+			return false
+		}
+	}
+	return true
+}
+
+func c05Nullable(n *syntax.RegexNode) bool {
+	switch n.T {
+	case syntax.NtEmpty, syntax.NtUpdateBumpalong, syntax.NtBol, syntax.NtEol, syntax.NtBoundary, syntax.NtNonboundary, syntax.NtECMABoundary,
+		syntax.NtNonECMABoundary, syntax.NtBeginning, syntax.NtStart, syntax.NtEndZ, syntax.NtEnd, syntax.NtPosLook, syntax.NtNegLook:
+		return true
+	case syntax.NtOneloop, syntax.NtNotoneloop, syntax.NtSetloop, syntax.NtOnelazy, syntax.NtNotonelazy, syntax.NtSetlazy,
+		syntax.NtOneloopatomic, syntax.NtNotoneloopatomic, syntax.NtSetloopatomic, syntax.NtLoop, syntax.NtLazyloop:
+		return n.M == 0 || (len(n.Children) == 1 && c05Nullable(n.Children[0]))
+	case syntax.NtConcatenate:
+		for _, ch := range n.Children {
+			if !c05Nullable(ch) {
+				return false
+			}
+		}
+		return true
+	case syntax.NtAlternate:
+		for _, ch := range n.Children {
+			if c05Nullable(ch) {
+				return true
+			}
+		}
+		return false
+	case syntax.NtCapture, syntax.NtAtomic, syntax.NtGroup:
+		return len(n.Children) == 1 && c05Nullable(n.Children[0])
+	}
+	return false
 }
